@@ -15,9 +15,9 @@ from vlib.runner import HERE, Outcome, hyp_search
 
 ID = "C12"
 LEVEL = "exploration"
-RULE = ("Each shard fixes a pool of 16 documents (generated ones that deliberately share object numbers, the resource "
+RULE = ("Each shard fixes a pool of 17 documents (generated ones that deliberately share object numbers, the resource "
         "name /F1, BaseFont names, base encodings differing only in /Differences, predefined CMap names with different "
-        "ToUnicode maps, multi-page members, a grid of equidistant labels, two Type0 fonts sharing one descendant, Type1 fonts with different built-in encodings, a /Font dictionary mixing indirect and direct fonts, two documents encrypted through the same crypt filter name with different keys, a document whose xref table carries a wrong offset and marks an object free whose body is still in the file, a document whose pages leave the graphics-state stack unbalanced (unclosed q with a non-default colour space, stray Q on the next page), a document whose pages share one zero-length content stream and paint an empty form twice; plus repository samples incl. an AES-encrypted one and CJK ones). "
+        "ToUnicode maps, multi-page members, a grid of equidistant labels, two Type0 fonts sharing one descendant, Type1 fonts with different built-in encodings, a /Font dictionary mixing indirect and direct fonts, two documents encrypted through the same crypt filter name with different keys, a document whose xref table carries a wrong offset and marks an object free whose body is still in the file, a document whose pages leave the graphics-state stack unbalanced (unclosed q with a non-default colour space, stray Q on the next page), a document whose pages share one zero-length content stream and paint an empty form twice, a document with a page whose /Resources are empty or missing while its content names what the previous page defines; plus repository samples incl. an AES-encrypted one and CJK ones). "
         "Hypothesis draws call histories (model-based op lists) run in one long-lived process: extract_text, "
         "extract_pages to completion, open a page iterator, advance any open iterator (interleaving documents), extract "
         "a single page by page_numbers, extract_text_to_fp(xml); each with caching on/off and LAParams default or "
@@ -146,6 +146,15 @@ def gen_doc(kind, variant):
         pages = [ops + b" q q BT /F1 12 Tf 50 700 Td (Open %d) Tj ET" % variant,
                  b"Q 0.5 sc 0.25 SC BT /F1 12 Tf 50 650 Td (Stray) Tj ET 10 10 100 50 re B",
                  b"Q Q q 0.75 sc BT /F1 12 Tf 50 600 Td (Third) Tj ET"]
+    elif kind == "noresources":
+        # page two has empty /Resources (variant 1: none at all) but its content names a font and a form that page one
+        # defines: whatever a page does with undefined names, it does not depend on the pages rendered before it
+        objs[10] = W.simple_font("ResFont")
+        objs[43] = W.Stream(W.D(Type=W.N("XObject"), Subtype=W.N("Form"), BBox=[0, 0, 100, 100],
+                                Resources={b"Font": {b"F1": W.R(10)}}), b"BT /F1 9 Tf 10 10 Td (in form) Tj ET")
+        pages = [b"BT /F1 12 Tf 50 700 Td (Page one %d) Tj ET /Fm0 Do" % variant,
+                 b"BT /F1 12 Tf 50 650 Td (Page two) Tj ET /Fm0 Do 10 10 50 50 re f",
+                 b"BT /F1 12 Tf 50 600 Td (Page three) Tj ET"]
     elif kind == "sharedempty":
         # one zero-length stream object used twice (first in /Contents of two pages) and an empty form painted twice:
         # a cached object that decodes to nothing is as valid the second time as the first
@@ -172,6 +181,13 @@ def gen_doc(kind, variant):
         kids.append(W.R(21 + 2 * i))
     objs[1] = W.D(Type=W.N("Catalog"), Pages=W.R(2))
     objs[2] = W.D(Type=W.N("Pages"), Kids=kids, Count=len(kids))
+    if kind == "noresources":
+        for i in (0, 2):
+            objs[21 + 2 * i][b"Resources"] = {b"Font": {b"F1": W.R(10)}, b"XObject": {b"Fm0": W.R(43)}}
+        if variant % 2:
+            del objs[23][b"Resources"]
+        else:
+            objs[23][b"Resources"] = {}
     if kind == "sharedempty":
         for i in range(len(pages)):
             pg = objs[21 + 2 * i]
@@ -235,6 +251,7 @@ def make_pool(rnd):
     pool.append(["gen", "damaged", rnd.randrange(2)])
     pool.append(["gen", "unbalanced", rnd.randrange(3)])
     pool.append(["gen", "sharedempty", rnd.randrange(2)])
+    pool.append(["gen", "noresources", rnd.randrange(2)])
     cv = rnd.sample(range(4), 2)
     pool.append(["gen", "crypt", cv[0]])
     pool.append(["gen", "crypt", cv[1]])
